@@ -4,7 +4,7 @@ import random
 from fractions import Fraction as Fr
 
 from .. import families as fam
-from ..dsl import (Cfg, Sym, Con, X, U, Z, Pg, Vg, t, T, t0, tf, nl1, nl2, at_t0, at_tf, integral, sum_, nxt, C)
+from ..dsl import (Cfg, Sym, Con, X, U, Z, Pg, Vg, t, T, t0, tf, nl1, nl2, at_t0, at_tf, integral, sum_, nxt, C, PINF, NINF)
 from ..instance import Inst
 from ..match import Checker, close
 from ..sx2smt import RZ, emb
@@ -39,7 +39,10 @@ def scaled_models():
     s.uscale = [SC[2]]
     s.derscale = [SC[3], SC[4]]
     s.cons = [Con('<=', X(0), 3, scale=SC[5]), Con('>=', X(1) * U(0), Pg('a'), scale=SC[0]), Con('==', at_t0(X(0)), 1, scale=SC[2]),
-              Con('<=<=', -1, 1, mid=U(0), scale=SC[1]), Con('<=', at_tf(X(1)), Pg('a') * 2, scale=SC[3])]
+              Con('<=<=', -1, 1, mid=U(0), scale=SC[1]), Con('<=', at_tf(X(1)), Pg('a') * 2, scale=SC[3]),
+              # vector-valued, scaled, infinite bounds on some rows only
+              Con('<=<=', [NINF, -1, -3], [2, 1, PINF], mid=[X(0), U(0) * 2, X(1) + t], scale=SC[4]),
+              Con('<=<=', [-2, NINF], [PINF, 4], mid=[X(1), X(0) - U(0)], scale=SC[2], grid='integrator')]
     s.objective = [integral(X(0) * X(0) + U(0) * U(0)), at_tf(X(1))]
     s.initial = [(X(0), Fr(3, 2)), (U(0), Fr(-1, 2)), (X(1), t)]
     out.append(s)
